@@ -154,7 +154,7 @@ def whole_sequence(ctx, folds):
     def takes_sink(path, args):
         return any(any(x == SINK for x in subterms(a)) for a in args)
 
-    lv = PathEnum(fn, facts, inline_also=takes_sink, mark_cycles=True, max_paths=60000).run()
+    lv = PathEnum(fn, facts, inline_also=takes_sink, mark_cycles=True, max_paths=60000, lower=True).run()
     for f in facts.fns.values():
         if f.d["span"]["file"] == "src/response.rs" and any(last_seg(t["callee"].get("path") or "") == "write_all" for bb, t in f.calls()):
             ctx.touched(f)
@@ -612,7 +612,7 @@ def new_rule(ctx):
     fn = facts.fn("response::Response::new")
     ctx.touched(fn)
     # setters, Default::default and helpers are traversed inline: what matters is the value the new response holds
-    leaves = PathEnum(fn, facts, inline_also=lambda path, args: path != "response::StatusLine::new").run()
+    leaves = PathEnum(fn, facts, inline_also=lambda path, args: True, lower=True).run()
     discr = facts.variant_discr("response::StatusCode")
     names = [v["name"] for v in facts.struct_fields("response::Response")]
     hnames = [v["name"] for v in facts.struct_fields(RH)]
@@ -647,12 +647,12 @@ def new_rule(ctx):
         bv = look(b)
         ctx.ob("R05.4", "new|body-none|bb%d" % lf.bb, (bv[0] == "agg" and bv[2] == "None") or is_call(bv, "default"), "a new response has no body", fn.loc(lf.bb))
         sl = r[3][names.index("status_line")]
-        ctx.ob("R05.4", "new|status-line|bb%d" % lf.bb, is_call(sl, "response::StatusLine::new") and sl[2] == (("arg", 1), ("arg", 2)), "status line built from the given version and status", fn.loc(lf.bb))
+        sl = look(sl)
+        slnames = [v["name"] for v in facts.struct_fields("response::StatusLine")]
+        ok_sl = sl[0] == "agg" and sl[1] == "response::StatusLine" and len(sl[3]) == 2 and look(sl[3][slnames.index("http_version")]) == ("arg", 1) and look(sl[3][slnames.index("status_code")]) == ("arg", 2)
+        ctx.ob("R05.4", "new|status-line|bb%d" % lf.bb, ok_sl, "the status line holds the given version and status (StatusLine::new, if any, traversed inline)", fn.loc(lf.bb))
     ctx.ob("R05.4", "new|none-set", none_set == {"Continue", "NoContent"}, "statuses created without Content-Length: %s (must be exactly Continue, NoContent)" % sorted(none_set), fn.loc(0))
     rest = set(discr.values()) - {"Continue", "NoContent"}
     ctx.ob("R05.4", "new|some0-set", some0_set == rest and not other, "statuses created with Content-Length 0: %s; other: %s" % (sorted(some0_set), other), fn.loc(0))
-    fs = facts.fn("response::StatusLine::new")
-    ctx.touched(fs)
-    for lf in PathEnum(fs, facts).run():
-        r = lf.ret()
-        ctx.ob("R05.4", "StatusLine::new|fields", r[0] == "agg" and r[3] == (("arg", 1), ("arg", 2)), "StatusLine::new stores (version, status) as given", fs.loc(0))
+    if facts.has_fn("response::StatusLine::new"):
+        ctx.touched(facts.fn("response::StatusLine::new"))
